@@ -1268,6 +1268,9 @@ func TestVerif_C11_BrokerStages(t *testing.T) {
 	c11ReplayStub(t, "c11-replay-stub-audit-broker-stages")
 }
 func TestVerif_C11_Lifecycle(t *testing.T) { c11ReplayStub(t, "c11-replay-stub-audit-lifecycle") }
+func TestVerif_C11_TuneExemptions(t *testing.T) {
+	c11ReplayStub(t, "c11-replay-stub-audit-tune-exemptions")
+}
 func TestVerif_C11_DeviceFaults(t *testing.T) {
 	c11ReplayStub(t, "c11-replay-stub-audit-device-faults")
 }
